@@ -325,6 +325,8 @@ pub struct Stats {
     pub text_only_draws: u64,
     pub logs: u64,
     pub truncated_frames: u64,
+    /// some line of the case had a double-width character straddling the right margin
+    pub wide_char_at_margin: bool,
     pub ghosts: u64,
     pub removes: u64,
     pub skipped_draws: u64,
